@@ -759,20 +759,40 @@ def check_C06(A: Analysis, tier):
     ra = Rule("C06", "C06.a", "every comparison of the caller's checksum with a digest normalises the checksum the "
               "same way, and that way includes lower-casing (digests are lower-case hex)", floor=2)
     cmps = []
-    for n in ast.walk(vf.node):
-        if isinstance(n, ast.Compare) and len(n.ops) == 1 and isinstance(n.ops[0], (ast.Eq, ast.NotEq)):
-            sides = [n.left, n.comparators[0]]
-            for i, sd in enumerate(sides):
-                rn, chain = root_name(sd)
-                if rn == "checksum":
-                    o = sides[1 - i]
-                    orn, _ = root_name(o)
-                    cmps.append((n, tuple(c for c in chain), orn))
+    # the verifier and the private checkers it hands the checksum on to (the parameter is followed by position / keyword)
+    scope, todo_ = [], [(vf, "checksum", 0)]
+    while todo_:
+        g_, var_, depth_ = todo_.pop()
+        if any(g_ is x and var_ == v_ for x, v_ in scope) or depth_ > 3:
+            continue
+        scope.append((g_, var_))
+        for c_ in ast.walk(g_.node):
+            if isinstance(c_, ast.Call) and isinstance(c_.func, ast.Attribute) and isinstance(c_.func.value, ast.Name) and c_.func.value.id == "self":
+                callee = A.p.method(CLS, c_.func.attr)
+                if callee is None:
+                    continue
+                params = [a.arg for a in callee.node.args.args if a.arg != "self"]
+                for i_, a_ in enumerate(c_.args):
+                    if isinstance(a_, ast.Name) and a_.id == var_ and i_ < len(params):
+                        todo_.append((callee, params[i_], depth_ + 1))
+                for k_ in c_.keywords:
+                    if isinstance(k_.value, ast.Name) and k_.value.id == var_ and k_.arg:
+                        todo_.append((callee, k_.arg, depth_ + 1))
+    for g_, var_ in scope:
+        for n in ast.walk(g_.node):
+            if isinstance(n, ast.Compare) and len(n.ops) == 1 and isinstance(n.ops[0], (ast.Eq, ast.NotEq)):
+                sides = [n.left, n.comparators[0]]
+                for i, sd in enumerate(sides):
+                    rn, chain = root_name(sd)
+                    if rn == var_:
+                        o = sides[1 - i]
+                        orn, _ = root_name(o)
+                        cmps.append((n, tuple(c for c in chain), orn))
     # a verdict taken through a function call instead of ==/!= (it may not be total)
-    for n in ast.walk(vf.node):
+    for n in [x for g_, var_ in scope for x in ast.walk(g_.node)]:
         if isinstance(n, ast.Call) and len(n.args) >= 2 and not norm(n.func).startswith(("self.", "logging.")):
             roots = [root_name(a)[0] for a in n.args]
-            if "checksum" in roots and any(r and r.startswith("hex_digest") for r in roots):
+            if any(r in {v_ for _g, v_ in scope} for r in roots) and any(r and r.startswith("hex_digest") for r in roots):
                 ra.inst(f"_verify_object_information:{n.lineno} `{norm(n)}`")
                 ra.ob()
                 ra.fail(vf, n, f"the verdict compares the caller's checksum with the digest through `{norm(n.func)}(...)` rather than ==/!=: "
@@ -949,6 +969,11 @@ def check_C06(A: Analysis, tier):
                     if (o.normal is not None or o.ret is not None) and fn.qual != A.impl_q("store_object"):
                         rh6.fail(fn, f"except {norm(h.type) if h.type is not None else 'bare'}", f"a {lab} verdict caught here can end in a normal completion: "
                                  "the invalid object is reported as stored / valid", A.p.loc(fn, h), {"entry": e})
+                    other = sorted(str(l_) for l_ in o.raises if l_ in VERDICTS and l_ != lab)
+                    if other:
+                        rh6.fail(fn, f"except {norm(h.type) if h.type is not None else 'bare'} -> raise {other[0]}", f"a {lab} verdict caught here leaves the handler as "
+                                 f"{other[0]}: the caller is told about another kind of mismatch than the one that was found (the documented error for this "
+                                 f"verdict is {lab})", A.p.loc(fn, h), {"entry": e})
             for ev in it.events:
                 if ev.handling and ev.handling[-1] in VERDICTS and ev.kind in ("READ", "WRITE", "CREATE", "MKDIR") and not ev.prim.startswith("file."):
                     rh6.ob()
@@ -1059,6 +1084,33 @@ def absence_answer(A, h):
     return bool(ent) and all(lab == "FileNotFoundError" and any(d_ == ("raised_in", q) for d_ in done for q in lookups) for lab, done in ent)
 
 
+def tmp_cleanup_swallower(A, f, h):
+    """the handler guards a try block whose only file-system effects, in every public call, are existence probes and removals
+    of TEMP files (a clean-up that must not replace the outcome of the call): swallowing a failure there hides no effect the
+    properties speak about"""
+    tries = [t for t in func_nodes(f, ast.Try) if any(h is x for x in t.handlers)]
+    if not tries:
+        return False
+    body_nodes = {id(x) for s_ in tries[0].body for x in ast.walk(s_)}
+    d = getattr(A, "_events_by_func", None)
+    if d is None:
+        d = {}
+        for it in A.all_api_runs():
+            for ev in it.events:
+                for (fn_, nd_) in ev.extra.get("callchain", [(ev.func, ev.node)]) if ev.extra else [(ev.func, ev.node)]:
+                    d.setdefault(fn_.node, []).append((id(nd_), ev))
+        A._events_by_func = d
+    evs = [ev for nid, ev in d.get(f.node, []) if nid in body_nodes and ev.kind not in ("OTHER", "HASH", "HASHNEW", "HASHUPDATE", "CLOSE", "HANDLEOP")]
+    if not evs or not any(ev.kind == "REMOVE" for ev in evs):
+        return False
+    for ev in evs:
+        if ev.kind not in ("PROBE", "REMOVE"):
+            return False
+        if not ev.classes or not all(c.cls == "TMP" for c in primary(ev.classes[0])):
+            return False
+    return True
+
+
 def os_capable(h):
     if h.type is None:
         return True
@@ -1086,7 +1138,7 @@ def check_C13(A: Analysis, tier):
                 if ends_in_raise(h.body):
                     continue
                 key = (f.qual, ty)
-                if absence_answer(A, h):
+                if absence_answer(A, h) or tmp_cleanup_swallower(A, f, h):
                     continue
                 if key in SWALLOWERS:
                     # the finally-clean-up entry applies only to a handler nested in a finally
@@ -1336,7 +1388,8 @@ def check_C13(A: Analysis, tier):
                 ty = "bare" if h.type is None else norm(h.type)
                 re_.ob()
                 re_.inst(f"{fn.qual}:{h.lineno} except {ty} <- {lab}")
-                if (o.normal is not None or o.ret is not None) and (fn.qual, ty) not in SWALLOWERS and not absence_answer(A, h):
+                if (o.normal is not None or o.ret is not None) and (fn.qual, ty) not in SWALLOWERS and not absence_answer(A, h) \
+                        and not tmp_cleanup_swallower(A, fn, h):
                     re_.fail(fn, f"except {ty}", f"a {lab} error caught here lets {e} continue to a normal return", A.p.loc(fn, h))
     rules.append(re_)
     return rules
@@ -1430,6 +1483,14 @@ def check_C14(A: Analysis, tier):
                 if ("call", need) not in ev.done:
                     rb.fail(site_func(ev), site_text(ev), f"the constructor changes the file system before {need.split('.')[-1]} has accepted the "
                             "properties: a refused open would leave files/directories behind", site_loc(A, ev))
+            # the last refusal of an open is the reading of the stored algorithm tables (an unsupported / missing entry in an existing
+            # hashstore.yaml raises there): the store's directory trees are created only after it (writing the configuration itself
+            # necessarily comes first - that is _write_properties' business, judged above)
+            sda_q = A.impl_q("_set_default_algorithms")
+            if Q("_write_properties") not in ev.ctx and sda_q not in ev.ctx and ("call", sda_q) not in ev.done:
+                rb.fail(site_func(ev), site_text(ev), "the constructor changes the file system before _set_default_algorithms has read the stored algorithm "
+                        "tables: an open that is then refused (unsupported store algorithm / missing list in an existing hashstore.yaml) has already "
+                        "created directories", site_loc(A, ev))
             if Q("_write_properties") in ev.ctx:
                 okalg = any(f[0] == "cmp" and f[1] == "in" and pol is True for f, pol in ev.facts) or \
                     any(a[0] == "cmp" and a[1] == "in" and F.implied(ev.facts, a) is True for f, pol in ev.facts for a in F.atoms_of(f))
@@ -1887,6 +1948,12 @@ def check_C20(A: Analysis, tier):
                     if d in OPTION_BINDING and pn not in OPTION_BINDING[d]:
                         rb.fail(main, c["node"], f"option dest `{d}` is passed as `{pn}` of {meth}; documented for {sorted(OPTION_BINDING[d])}",
                                 A.p.loc(main, c["node"]))
+                    # and the converse: a per-request parameter is fed by the per-request option documented for it, not by
+                    # another option (e.g. a store-creation option whose dest has a similar name)
+                    allowed = {d_ for d_, ps in OPTION_BINDING.items() if pn in ps}
+                    if allowed and d not in allowed and d not in OPTION_BINDING:
+                        rb.fail(main, c["node"], f"`{pn}` of {meth} is taken from the option dest `{d}`, which is not the option documented for it "
+                                f"({sorted(allowed)}): the value given on the command line for `{pn}` never reaches the API", A.p.loc(main, c["node"]))
                 wants_int = "int" in ann.get(pn, "")
                 if wants_int:
                     if tag(t) == "opt" and (opts.get(t[1], {}).get("type") != "int"):
